@@ -240,6 +240,14 @@ def main():
                 err = 28 if kind in ("write", "fsync") else 5
                 one(name, msg, env, "fail %s %s #%d" % (kind, where, nth), {"SYSSHIM_FAIL": "%s:%s:%d:%d" % (kind, where, err, nth)})
                 ck.count("single_fault_runs")
+            # every write of the observed sequence cut short once (half of the bytes taken, no error): the program must write the rest
+            seen3 = {}
+            for kind, where in calls:
+                if kind != "write": continue
+                seen3[where] = seen3.get(where, 0) + 1
+                if seen3[where] > 4 and not ck.thorough: continue
+                one(name, msg, env, "short write %s #%d" % (where, seen3[where]), {"SYSSHIM_FAIL": "write:%s:999:%d" % (where, seen3[where])})
+                ck.count("short_write_runs")
             for fd, nth in (("fd0", 1), ("fd0", 2), ("fd1", 1)):
                 one(name, msg, env, "fail read %s #%d" % (fd, nth), {"SYSSHIM_FAIL": "read:%s:5:%d" % (fd, nth)})
                 ck.count("read_fault_runs")
@@ -303,7 +311,7 @@ def main():
             ok = False; obj["note"] = "exit 0 without a todo entry"
         if r["rc"] not in (0, 137, -14, -15, 52) and r["rc"] > 0 and disk["todo"]:
             ok = False; obj["note"] = "failure exit but the message is visible"
-        if r["plan"] == "none":
+        if r["plan"] == "none" or r["plan"].startswith("short write"):
             exp = {"O": 0, "E": 54, "B": 91, "L": 11}[r["parse"]]
             if r["rc"] != exp:
                 ok = False; obj["note"] = "exit code %d, documented %d" % (r["rc"], exp)
@@ -326,7 +334,7 @@ def main():
     ck.cov["disagreements_checked"] = len(mism)
     ck.cov["traces_validated_against_impl"] = len(records)
     ck.cov["rule"] = ("inputs: message sizes around 256/2048/8192, envelopes with 0..120 recipients, addresses of 1001-1004 bytes, wrong record letters, "
-                      "missing terminator, EOF at every offset of a small envelope, random; plans: none, every single failing open/link/unlink/write/fsync "
+                      "missing terminator, EOF at every offset of a small envelope, random; plans: none, every single failing open/link/unlink/write/fsync, every write cut short once, "
                       "of the observed call sequence, read errors on fd 0/1, SIGALRM/SIGTERM right after chosen calls, kill before each call. "
                       "non-trivial = distinct (input, plan, observed event trace)")
     for r in records[:2] + records[-1:]:
@@ -349,7 +357,7 @@ def main():
                             "checks/C01.py trace abstraction (merges adjacent writes; maps paths to event kinds)"],
               assumptions=["directory operations are synchronous and file data is durable up to the last successful fsync (conf-qmail's stated requirement); "
                            "loss of unsynced data is covered by the theorem and by evaluating the oracle on the fsync positions of the real trace, not by physically losing data",
-                           "short (partial) writes and two simultaneous faults are not injected; the Received: line is treated as opaque bytes"])
+                           "two simultaneous faults are not injected; a short write takes half of the offered bytes; the Received: line is treated as opaque bytes"])
 
 def replay(path):
     obj = json.load(open(path))
